@@ -6,8 +6,10 @@
 (***************************************************************************)
 EXTENDS Integers, Sequences, FiniteSets, TLC
 
-Srcs   == {"file", "stdin", "dash", "missing", "directory"}
-Texts  == {"valid", "warned", "syntax", "empty"}
+\* "fileopt": an option typed after the grammar file (flag parsing stops at the first non-flag); "file2": two grammar files.
+\* main.go ignores what follows the grammar file.  "validlong": a valid grammar with one line of 100 000 characters.
+Srcs   == {"file", "stdin", "dash", "missing", "directory", "fileopt", "file2"}
+Texts  == {"valid", "warned", "syntax", "empty", "validlong"}
 Dests  == {"default", "named", "stdout", "missingdir", "isdir", "devfull"}
 Pres   == {"absent", "longer"}
 Opts   == {"", "i", "s", "is", "n", "nis"}
@@ -17,22 +19,25 @@ Scenarios == [src : Srcs, text : Texts, dest : Dests, pre : Pres, strict : BOOLE
 \* where the output goes: a file, standard output, or nowhere openable
 \* (default: <grammar>.go when a file argument is given, else standard output)
 DestKind(sc) ==
-  CASE sc.dest = "default" -> IF sc.src \in {"file", "missing", "directory"} THEN "file" ELSE "stdout"
+  CASE sc.dest = "default" -> IF sc.src \in {"file", "missing", "directory", "fileopt", "file2"} THEN "file" ELSE "stdout"
     [] sc.dest = "named" -> "file"
     [] sc.dest = "stdout" -> "stdout"
     [] sc.dest = "devfull" -> "devfull"
     [] OTHER -> "unopenable"
 
 (* ---------- requirement ---------------------------------------------------- *)
-SourceOK(sc) == sc.src \in {"file", "stdin", "dash"}
-TextOK(sc) == sc.text \in {"valid", "warned"}
+SourceOK(sc) == sc.src \in {"file", "stdin", "dash", "fileopt", "file2"}
+TextOK(sc) == sc.text \in {"valid", "warned", "validlong"}
+\* surplus arguments: the property does not say whether they are an error, only that exit 0 means a complete parser
+Lenient(sc) == sc.src \in {"fileopt", "file2"}
 \* a scenario in which no complete parser can be delivered
 Failure(sc) == ~SourceOK(sc) \/ ~TextOK(sc) \/ DestKind(sc) \in {"unopenable", "devfull"} \/ (sc.text = "warned" /\ sc.strict)
 \* obs: [exit, stderr (BOOLEAN: non-empty), dest \in {"absent","empty","complete","other"}]
 CliReq(sc, obs) ==
   /\ obs.exit = 0 => obs.dest = "complete"
+  /\ obs.exit # 0 => obs.stderr
   /\ Failure(sc) => obs.exit # 0 /\ obs.stderr
-  /\ ~Failure(sc) => obs.exit = 0 /\ obs.dest = "complete"
-  /\ (sc.text = "warned" /\ ~Failure(sc)) => obs.stderr
-  /\ (sc.text = "valid" /\ ~Failure(sc)) => ~obs.stderr
+  /\ (~Failure(sc) /\ ~Lenient(sc)) => obs.exit = 0 /\ obs.dest = "complete"
+  /\ (sc.text = "warned" /\ ~Failure(sc) /\ obs.exit = 0) => obs.stderr
+  /\ (sc.text \in {"valid", "validlong"} /\ ~Failure(sc) /\ obs.exit = 0) => ~obs.stderr
 =============================================================================
